@@ -3,7 +3,7 @@ C16 (history independence), C20 (ls shows stored values)."""
 import os
 
 from pyvc.contract import contract
-from contracts.e2e import _lib, expand_akai, expand_roland, _sample, _vol, _rsample, WPC
+from contracts.e2e import _lib, expand_akai, expand_roland, roland_expected, _sample, _vol, _rsample, WPC
 
 CONCRETE = {}
 
@@ -1266,12 +1266,17 @@ def _build_img_inter(inputs):
     L = _lib()
 
     def run():
-        model = expand_akai(_base_akai(inputs.get("k", 0)))
-        raw = L.aw.build_akai_image(model)
-        if inputs.get("container") == "2352":
-            raw = L.aw.wrap_2352(raw)          # the same image as MODE1/2352 raw sectors: sector streams nested in a sector stream
         with L.Workdir() as w:
-            p = w.file("img.akai", raw)
+            if inputs.get("kind", "akai") == "akai":
+                raw = L.aw.build_akai_image(expand_akai(_base_akai(inputs.get("k", 0))))
+                if inputs.get("container") == "2352":
+                    raw = L.aw.wrap_2352(raw)          # the same image as MODE1/2352 raw sectors: sector streams nested in a sector stream
+                p = w.file("img.akai", raw)
+            elif inputs["kind"] == "roland":
+                p = w.file("img.s7xx", L.rw.build_roland_image(expand_roland(_c15x_model())))
+            else:
+                tracks = [{"number": i + 1, "mode": "AUDIO", "title": f"T{i}", "indices": [(1, 0, 0, 3 * i)]} for i in range(3)]
+                p = L.cw.write_bin_cue(w.sub("cd"), L.pcm_words(61, 2352 * 9 // 2 + 8)[:2352 * 9 + 10], L.cw.build_cue(tracks))
             image = L.open_image(p)
             image.set_routines({"make_safe_names": image.make_safe_names_routine, "make_export_names": image.make_export_names_routine})
             streams, got = {}, {}
@@ -1305,11 +1310,18 @@ def _oracle_img_inter(inputs, kind, val, env):
     L = _lib()
     if kind != "return":
         return ["oracle.no-exception-expected"]
-    model = expand_akai(_base_akai(inputs.get("k", 0)))
     want = {}
-    for rel, (pcm, _rate) in L.akai_expected_mono(model).items():
-        part, vol, name = rel[:-4].split("/")
-        want[f"{part}:/{vol}/{name}"] = pcm
+    if inputs.get("kind", "akai") == "akai":
+        model = expand_akai(_base_akai(inputs.get("k", 0)))
+        for rel, (pcm, _rate) in L.akai_expected_mono(model).items():
+            part, vol, name = rel[:-4].split("/")
+            want[f"{part}:/{vol}/{name}"] = pcm
+    elif inputs["kind"] == "roland":
+        for rel, (pcm, _rate) in roland_expected(expand_roland(_c15x_model())).items():
+            want[rel[:-4]] = pcm
+    else:
+        binb = L.pcm_words(61, 2352 * 9 // 2 + 8)[:2352 * 9 + 10]
+        want = {"T0": binb[:2352 * 3], "T1": binb[2352 * 3:2352 * 6], "T2": binb[2352 * 6:]}          # (the VIEW runs to the end of the bin; trimming to whole frames is the transcoder's job)
     bad = []
     for path, hx in val["got"].items():
         if bytes.fromhex(hx) != want[path]:
@@ -1346,6 +1358,28 @@ def _small_img_inter(tier, seed, shard=(0, 1)):
     for k, c in enumerate(cases):
         if k % shard[1] == shard[0]:
             yield {"schedule": c, "k": k % 3, "drain_block": (1500, 4096, 8192)[k % 3], **({"container": "2352"} if k % 2 else {})}
+    # the same on a Roland image (samples in interleaved clusters, one time-reversed, one behind a leading cluster, one reached through an orphaned
+    # performance) and on a bin/cue image (three track windows over one bin handle); reversed views are read in whole 16-bit words
+    for kind, ps, lists in (("roland", ["V/P/S0", "V/P/S1", "V/P/S2", "_Orphan_perf/ORPH/S3"], ["", "V", "V/P", "_Orphan_perf"]),
+                            ("cdda", ["T0", "T1", "T2"], [""])):
+        extra = []
+        for a, b in itertools.permutations(ps, 2):
+            extra.append([["read", a, 700], ["read", b, 700], ["ls", lists[-1]], ["read", a, 9216], ["read", b, 4], ["seek", a], ["read", a, 5000], ["ls", lists[0]],
+                          ["read", b, 9000], ["read", a, 2]])
+        for _ in range(6 if tier == "quick" else 100):
+            sched = []
+            for _j in range(rnd.randint(4, 12)):
+                r = rnd.random()
+                if r < 0.2:
+                    sched.append(["ls", rnd.choice(lists + ps)])
+                elif r < 0.3:
+                    sched.append(["seek", rnd.choice(ps)])
+                else:
+                    sched.append(["read", rnd.choice(ps), rnd.choice((2, 100, 4096, 9216, 9218, 20000))])
+            extra.append(sched)
+        for k, c in enumerate(extra):
+            if k % shard[1] == shard[0]:
+                yield {"schedule": c, "kind": kind, "drain_block": (1500, 4096, 9216)[k % 3]}
 
 
 @contract("bounded:image_stream_interleavings", props=["C11"], abstract=True)
@@ -1358,7 +1392,7 @@ CONCRETE["bounded:image_stream_interleavings"] = {
     "nontrivial": lambda i, s: s["kind"] == "return",
     "bound": "a two-partition AKAI image (three directories, six samples, fragmented chains), plain and as MODE1/2352 raw sectors: every ordered pair of sample streams from different directories "
              "(thorough: every ordered pair) read in alternating blocks with listings of other directories in between, directories realised lazily in schedule order; "
-             "10 / 200 random schedules of reads (1..20000 bytes), re-seeks and listings over all six streams; every stream compared with its sample's PCM window",
+             "10 / 200 random schedules of reads (1..20000 bytes), re-seeks and listings over all six streams; every stream compared with its sample's PCM window; the same on a Roland image (4 sample streams, one reversed) and a bin/cue image (3 track windows)",
     "timeout_s": 60.0, "budget_quick": 120, "budget_thorough": 900,
 }
 
